@@ -15,7 +15,8 @@ EXPLANATION = (
     'cur.address -> abort, and `prev` is updated on every byte-producing line; C04.3 no filter (muted, zone, file) sits '
     'between the list addressed by the first pass and the list checked. C04.4 (recorded argument, not machine checked): '
     'adjacent comparison over a start-sorted list with abort on the first overlap is complete for pairwise overlap of '
-    'non-empty ranges. Not decided: nothing numeric beyond the linear guard.'
+    'non-empty ranges. The guard works on address + byte_size, so the size/emission agreement rules C02.5 and C10.1 are '
+    're-evaluated here as necessary conditions. Not decided: nothing numeric beyond the linear guard.'
 )
 ASSUMPTIONS = [
     'Python list.sort is stable and total on integer keys',
@@ -124,7 +125,16 @@ def c04_3(ctx):
         ctx.refute('filter:no-removal', fn.site(r), 'no line is removed from the checked list', unparse(r))
 
 
-RULES = [c04_1, c04_2, c04_3]
+def c04_sizes(ctx):
+    """The overlap guard compares address + byte_size: it is only as good as the agreement between the size a line
+    reserves and the bytes it emits (C02.5) and, for macros, between the composite's size and its steps (C10.1)."""
+    from rules.c02 import c02_5
+    from rules.c10 import c10_1
+    c02_5(ctx)
+    c10_1(ctx)
+
+
+RULES = [c04_1, c04_2, c04_3, c04_sizes]
 
 _E = 'assembler/engine.py'
 MUTANTS = [
